@@ -430,6 +430,7 @@ pub fn api_harness(spec: &RunSpec) -> RunOutput {
             match fault_kind.as_str() {
                 "error" => ctl_c.borrow_mut().fail_at = Some((fault_at, FaultMode::Error)),
                 "eof" => ctl_c.borrow_mut().fail_at = Some((fault_at, FaultMode::Eof)),
+                "send_error" => ctl_c.borrow_mut().fail_at = Some((fault_at, FaultMode::SendError)),
                 _ => {}
             }
         }
@@ -663,8 +664,9 @@ pub fn api_harness(spec: &RunSpec) -> RunOutput {
             match stage {
                 1 => {
                     w.check_blocked(false);
-                    if w.prop == Prop::C19 || true {
-                        w.check_views();
+                    // The view checks call into the discoverers and lifetimes synchronously.
+                    if let Err(info) = crate::exec::catch(|| w.check_views()) {
+                        w.on_panic("polling a discoverer or lifetime", info);
                     }
                     stopping.set(true);
                     for c in &w.clients {
@@ -867,7 +869,11 @@ pub fn api_harness(spec: &RunSpec) -> RunOutput {
             *st.faults.entry("io_pending").or_insert(0) += ctl.pendings;
         }
         if ctl.fired {
-            *st.faults.entry(if fault_kind == "eof" { "eof" } else { "transport_error" }).or_insert(0) += 1;
+            *st.faults.entry(match fault_kind.as_str() {
+                "eof" => "eof",
+                "send_error" => "transport_send_error",
+                _ => "transport_error",
+            }).or_insert(0) += 1;
         }
     }
     if st.spurious_polls > 0 {
@@ -894,7 +900,7 @@ pub fn api_harness(spec: &RunSpec) -> RunOutput {
             h.u64(fault_client.unwrap_or(0) as u64);
             h.str(&fault_kind);
             h.u64(fault_at);
-            st.fault_point = Some((h.0, base, 6 * (n + 1)));
+            st.fault_point = Some((h.0, base, 7 * (n + 1)));
         }
     }
     let victim_ops = fault_client.and_then(|v| w.clients.get(v)).map(|c| c.ctl.borrow().ops).unwrap_or(0);
